@@ -96,6 +96,7 @@ Exercised ==
           dedicated_meter |-> \E m \in Nodes : Dedicated(m),
           grid_meter_over_one_device_type |-> \E m \in Nodes : IsTheGridMeter(m) /\ MeterFallback(m) # {},
           grid_meter_as_chp_meter |-> CauseGridMeterAsChpMeter,
+          no_grid_meter_and_two_mixed_meters_with_device_chains |-> TwoMixed,
           real_fallbacks |-> Cardinality({<<j, p>> \in (1..Len(Tr.calls)) \X Nodes : Tr.calls[j].fb[p] # <<>>}),
           real_refusals |-> Cardinality({j \in 1..Len(Tr.calls) : ~Tr.calls[j].ok}),
           real_zero_formulas |-> Cardinality({j \in 1..Len(Tr.calls) : Tr.calls[j].ok /\ Tr.calls[j].coef = ZeroVec})]
